@@ -231,8 +231,12 @@ func (c *Client) ExchangeWithConnContext(ctx context.Context, m *Msg, co *Conn) 
 		for {
 			r, err = co.ReadMsg()
 			// Ignore replies with mismatched IDs because they might be
-			// responses to earlier queries that timed out.
-			if err != nil || r.Id == m.Id {
+			// responses to earlier queries that timed out. Such a reply
+			// may well not decode in full (it was sized for the buffer of
+			// the query it answers) or carry a TSIG that does not verify
+			// (it was signed for that query): ReadMsg then returns the
+			// message next to the error, and it is skipped all the same.
+			if r == nil || r.Id == m.Id {
 				break
 			}
 		}
